@@ -158,8 +158,14 @@ def check(repo, rep):
         v = l.value
         name = term_name(v[1]).split('.')[-1] if v[0] == 'call' else '?'
         fmts = [c for c in l.conds if any(x == ('c', 'raw') or x == ('c', 'wav') for x in walk(c[0]))]
-        israw = any(c[0][0] == 'cmp' and c[0][1] == '==' and c[0][3] == ('c', 'raw') and c[1] for c in l.conds)
-        iswav = any(c[0][0] == 'cmp' and c[0][1] == 'in' and any(x == ('c', 'wav') for x in walk(c[0][3])) and c[1] for c in l.conds) or any(c[0][0] == 'cmp' and c[0][1] == '==' and c[0][3] == ('c', 'wav') and c[1] for c in l.conds)
+        def fmt_is(name):
+            for c in l.conds:
+                g = norm_cmp(c[0], c[1])
+                if g and ((g[0] == 'in' and any(x == ('c', name) for x in walk(g[2]))) or (g[0] == '==' and g[2] == ('c', name))):
+                    return True
+            return False
+        israw = fmt_is('raw')
+        iswav = fmt_is('wav')
         if israw:
             nff += 1
             fn = cx.fn('io', name, required=False)
